@@ -260,14 +260,37 @@ class ClientSide:
 
     def __init__(self, url="ws://example.com/ws", callback_mode=True, **kw):
         self.received = []  # messages (None = closed) in arrival order
+        # (close_code, close_reason) of the connection object AT THE MOMENT the application is told about the
+        # close: inside on_message_callback(None), resp. when the read_message() future resolves with None
+        self.close_seen = []
         self.callback_mode = callback_mode
         self._pending_read = None
         with fake_tcp() as streams:
             if callback_mode:
-                kw["on_message_callback"] = self.received.append
+                kw["on_message_callback"] = self._on_message
             self.connect_future = tornado.websocket.websocket_connect(url, **kw)
         self._streams = streams
         self.conn = None
+
+    def _on_message(self, message):
+        self.received.append(message)
+        if message is None:
+            self._record_close_attrs()
+
+    def _record_close_attrs(self):
+        f = self.connect_future
+        if f.done() and not f.cancelled() and f.exception() is None:
+            c = f.result()
+            self.close_seen.append((c.close_code, c.close_reason))
+        else:
+            self.close_seen.append(("no-connection", None))
+
+    def reported_close(self):
+        """What the application saw when it was notified (falls back to the attributes as they are now)."""
+        if self.close_seen:
+            return self.close_seen[0]
+        c = self.connect_future.result()
+        return (c.close_code, c.close_reason)
 
     @property
     def stream(self):
@@ -292,6 +315,8 @@ class ClientSide:
                 if self.received and self.received[-1] is None:
                     return
                 self._pending_read = self.conn.read_message()
+                self._pending_read.add_done_callback(
+                    lambda f: self._record_close_attrs() if not f.cancelled() and f.exception() is None and f.result() is None else None)
             await vtime.settle(pump=pump or self.pump)
             if not self._pending_read.done():
                 return
